@@ -135,7 +135,10 @@ func treeKeys(m map[string]string) []string {
 
 // runSeq executes the sequence in a fresh scratch dir, either through one shared
 // Config or through a freshly built identical Config per call.
-func runSeq(c *vkit.Ctx, o optSet, seq []string, shared bool, in any) (map[string]string, []string, bool) {
+func runSeq(c *vkit.Ctx, o optSet, seq []string, shared bool, in any, other ...bool) (map[string]string, []string, bool) {
+	// other[i]: call i is issued from a second test source file (c12other_test.go): the
+	// default file name of a multi-entry snapshot is the calling test file's
+	isOther := func(i int) bool { return i < len(other) && other[i] }
 	root := vkit.MkScratch("c12")
 	defer os.RemoveAll(root)
 	snaps.VerifResetProcessState()
@@ -152,7 +155,11 @@ func runSeq(c *vkit.Ctx, o optSet, seq []string, shared bool, in any) (map[strin
 			cfg = o.build(root)
 		}
 		fp0 := fingerprint(cfg)
-		callEntry(cfg, t, api, i)
+		if isOther(i) {
+			callEntryOtherFile(cfg, t, api, i)
+		} else {
+			callEntry(cfg, t, api, i)
+		}
 		c.Count("fingerprint_checks", 1)
 		if fp1 := fingerprint(cfg); fp1 != fp0 {
 			c.Violate("config-mutated-by-call", "", fmt.Sprintf("options {%s}: %s (call %d of %v) changed the Config: %s -> %s", o.Name, api, i, seq, fp0, fp1), in)
@@ -173,7 +180,7 @@ func runSeq(c *vkit.Ctx, o optSet, seq []string, shared bool, in any) (map[strin
 	if ok {
 		want := map[string]bool{}
 		sk := map[string]int{}
-		for _, api := range seq {
+		for i, api := range seq {
 			if o.Upd != nil && !*o.Upd {
 				break // Update(false): nothing may be created
 			}
@@ -191,6 +198,9 @@ func runSeq(c *vkit.Ctx, o optSet, seq []string, shared bool, in any) (map[strin
 			default:
 				if base == "" {
 					base = "c12_test"
+					if isOther(i) {
+						base = "c12other_test"
+					}
 				}
 				want[filepath.Join(o.Sub, base+".snap"+ext)] = true
 			}
@@ -239,7 +249,7 @@ func keysOfBool(m map[string]bool) []string {
 }
 
 func checkC12(c *vkit.Ctx) {
-	c.P.Rule = "case = (option set, sequence of 1..4 entry points) - ALL 780 sequences over the five Match* entry points x 108 option sets (Filename x Ext x Update x JSON x nested Dir); each sequence is executed twice in fresh directories: through one shared Config and through a freshly built identical Config per call; oracle: reflection fingerprint of the Config (and of an unrelated Config and of WithConfig()) before/after every call, and equality of created relative paths, file bytes and outcomes between the two executions; non-trivial = sequence of length >= 2 (an earlier call can influence a later one); distinct by (option set, sequence); thorough adds concurrent mixes through one Config under the race detector"
+	c.P.Rule = "case = (option set, sequence of 1..4 entry points) - ALL 780 sequences over the five Match* entry points x 108 option sets (Filename x Ext x Update x JSON x nested Dir); each sequence is executed twice in fresh directories: through one shared Config and through a freshly built identical Config per call; oracle: reflection fingerprint of the Config (and of an unrelated Config and of WithConfig()) before/after every call, and equality of created relative paths, file bytes and outcomes between the two executions; plus sampled sequences in which the calls of one test come from two different _test.go files (default file name = the calling file's, per call); non-trivial = sequence of length >= 2 (an earlier call can influence a later one); distinct by (option set, sequence); thorough adds concurrent mixes through one Config under the race detector"
 	sets := allOptSets()
 	var seqs [][]string
 	var rec func(pre []string, n int)
@@ -287,6 +297,40 @@ func checkC12(c *vkit.Ctx) {
 		c.Case(vkit.Hash(o.Name, seq), len(seq) >= 2)
 		if i%4001 == 0 {
 			c.Sample(in)
+		}
+	}
+	// the same test calling through one Config from two test source files (a helper that
+	// lives in its own _test.go file next to a direct call), in every order
+	if os.Getenv("VERIF_RACE_BUILD") != "1" {
+		n := c.N(3000, 60000)
+		for j := 0; j < n; j++ {
+			i := total + 1000000 + j
+			if !c.Mine(i) {
+				continue
+			}
+			r := c.Rand("twofiles", j)
+			o := sets[r.IntN(len(sets))]
+			if r.IntN(3) > 0 {
+				for o.File != "" {
+					o = sets[r.IntN(len(sets))]
+				}
+			}
+			seq := make([]string, 2+r.IntN(3))
+			other := make([]bool, len(seq))
+			for k := range seq {
+				seq[k] = entryPoints[r.IntN(5)]
+				other[k] = r.IntN(2) == 0
+			}
+			in := map[string]any{"options": o.Name, "sequence": seq, "from_second_test_file": other}
+			c.Guard(in, func() {
+				t1, o1, ok1 := runSeq(c, o, seq, true, in, other...)
+				t2, o2, ok2 := runSeq(c, o, seq, false, in, other...)
+				if ok1 && ok2 && (fmt.Sprint(treeKeys(t1)) != fmt.Sprint(treeKeys(t2)) || fmt.Sprint(o1) != fmt.Sprint(o2)) {
+					c.Violate("location-depends-on-earlier-calls", "", fmt.Sprintf("options {%s} sequence %v (second file: %v): shared Config created %v %v, fresh Configs created %v %v", o.Name, seq, other, treeKeys(t1), o1, treeKeys(t2), o2), in)
+				}
+			})
+			c.Count("two_test_file_sequences", 1)
+			c.Case(vkit.Hash("twofiles", o.Name, seq, other), true)
 		}
 	}
 	if c.P.Exhaustive == nil {
